@@ -29,6 +29,13 @@ class BPred(object):
         self.lhs, self.rhs, self.neg = lhs, rhs, neg
 
 
+class SmallIt(object):
+    """an iterator whose (at most 16) items are known one by one"""
+
+    def __init__(self, items):
+        self.items = list(items)
+
+
 class CrcObj(object):
     def __init__(self):
         self.ranges = []
@@ -196,6 +203,11 @@ class FrameInterp(Interp):
                     return self.compare("Lt", Sym(1), add(lo0, 1))
                 return self.compare("Eq", lo0, hi0)
             raise Undecided("call of %s" % c)
+        if c in ("core::iter::Iterator::zip", "core::iter::Iterator::map", "core::iter::Iterator::sum", "core::iter::Iterator::fold",
+                 "core::iter::Iterator::rev", "core::iter::Iterator::enumerate") and t["args"]:
+            r_ = self.small_iter_call(st, t, c)
+            if r_ is not None:
+                return r_
         m_ = bitsem.re.fullmatch(r"core::num::<impl u(8|16|32|64)>::to_(be|le)_bytes", c)
         if m_:
             # the integer as an array of its bytes (checksum trailer compared bytewise)
@@ -268,6 +280,71 @@ class FrameInterp(Interp):
                 return BV(list(v.bits) + [0] * (d[0] - v.w), d[1])
             return v
         return Interp.call(self, st, t)
+
+    # ---- short iterator pipelines over a bounded piece of the input (the three checksum bytes): unrolled
+    def small_items(self, st, v):
+        """the items of an iterator value as a Python list, or None"""
+        if isinstance(v, SmallIt):
+            return v.items
+        if isinstance(v, bitsem.It) and v.take is None and v.skip is None and v.end is not None:
+            n = lin_parts(sub(v.end, v.idx))
+            if n is None or n[0] != 0 or not (0 <= n[1] <= 16):
+                return None
+            items = []
+            for k in range(n[1]):
+                ref = Ref(("byte", add(v.idx, k)))
+                items.append(Tup([(v.enum or 0) + k, ref]) if v.enum is not None and isinstance(v.enum, int) else ref)
+            return items
+        if isinstance(v, list) and len(v) <= 16:
+            return list(v)
+        return None
+
+    def small_iter_call(self, st, t, c):
+        args = [self.operand(st, a) for a in t["args"]]
+        short = c.rsplit("::", 1)[1]
+        base = self.small_items(st, args[0])
+        if base is None:
+            return None
+        if short == "zip":
+            other = self.small_items(st, args[1])
+            if other is None:
+                return None
+            return SmallIt([Tup([x, y]) for x, y in zip(base, other)])
+        if short == "rev":
+            return SmallIt(list(reversed(base)))
+        if short == "enumerate":
+            return SmallIt([Tup([k, x]) for k, x in enumerate(base)])
+        if short == "map" and isinstance(args[1], bitsem.Closure):
+            return SmallIt([self.exec_closure(st, args[1], [x]) for x in base])
+        if short == "sum":
+            d = bitsem.ty_bits(self.place_ty(t["dest"]))
+            if not d:
+                return None
+            acc = bv_const(0, d[0])
+            for x in base:
+                acc = self.add_disjoint(acc, self.as_bv(x, d[0]))
+            return acc
+        if short == "fold" and len(args) == 3 and isinstance(args[2], bitsem.Closure):
+            acc = args[1]
+            for x in base:
+                acc = self.exec_closure(st, args[2], [acc, x])
+            return acc
+        return None
+
+    def add_disjoint(self, x, y):
+        """x + y for bit vectors that have no position where both may be 1: the sum is the bitwise or"""
+        xc, yc = x.concrete(), y.concrete()
+        if xc is not None and yc is not None:
+            return bv_const((xc + yc) & ((1 << x.w) - 1), x.w)
+        bits = []
+        for a, b in zip(x.bits, y.bits):
+            if a == 0:
+                bits.append(b)
+            elif b == 0:
+                bits.append(a)
+            else:
+                raise Undecided("addition of symbolic values whose bits overlap")
+        return BV(bits, False)
 
     def as_bv(self, v, w, signed=None):
         if isinstance(v, Lin):
@@ -364,6 +441,14 @@ class FrameInterp(Interp):
                         break
                     if isinstance(d, BV):
                         d = d.concrete()
+                    if isinstance(d, Lin):
+                        # `match len { 0 | 1 => .., _ => .. }` inside a partition of the length: decided by the partition's range
+                        lo_, hi_ = lin_range(d)
+                        if lo_ == hi_:
+                            d = lo_
+                        elif not any(lo_ <= v_ <= hi_ for v_, tb_ in t["arms"]):
+                            b = t["otherwise"]
+                            continue
                     if not isinstance(d, int):
                         raise Undecided("branch on an unmodelled value")
                     b = self.arm(t, d)
